@@ -182,8 +182,10 @@ BLANK = dict(ev="", id="", kinds=[], c=0, p="", same=[], hashes=[], classes=[], 
 def library_half(ctx, quick, st):
     configs = [("both", "first"), ("first", "second"), ("rerr", "both"), ("none", "bad", "first"), ("second", "rerr"), ("both", "none")]
     if not quick:
-        configs += [("both", "both"), ("first", "first", "second"), ("rerr", "rerr"), ("bad", "second", "none")]
-    cap = 700 if quick else None
+        # (three calls that all reach every gate point: ("first", "none", "second") has 7.8 M states, ("first", "first",
+        #  "second") did not finish in 25 min - measured; the three-call combinations below have 5 k .. 180 k states)
+        configs += [("both", "both"), ("first", "bad", "second"), ("rerr", "rerr"), ("bad", "second", "none")]
+    cap = 700 if quick else 20000
     all_srcs = sorted({s for v in SRC.values() for s in v})
     solo = solo_results(ctx, all_srcs)
     for k, v in SRC.items():
@@ -367,7 +369,7 @@ def run(ctx):
                distinct_nontrivial=st["schedules_replayed"], stress_calls=st["stress_calls"], multi_file_runs=st["multi_file_runs"],
                multi_file_runs_in_model=st["runs_in_model"], model_drift_runs=st["drift"], exhaustive=not quick,
                samples=[st["sample_run"], st["sample_indep"]],
-               rule="library: every interleaving of the gate points of 2 (3) concurrent Apply calls for 6 (thorough: 10) combinations of source kinds (both / first / second / no change matches, parse error, failing replacement), enumerated by TLC, %s replayed on real goroutines and validated passage by passage; sequential histories of 4..12 calls and 8..16 free-running goroutines under the race detector; command: sequences of 2..3 files of 6 kinds x argument orders x 3 modes enumerated by TLC, %s, each run twice and compared file by file with the solo run; distinct = distinct schedules" % ("a seeded sample of" if quick else "all", "a seeded sample of 150" if quick else "2500 sampled"))
+               rule="library: every interleaving of the gate points of 2 (3) concurrent Apply calls for 6 (thorough: 10) combinations of source kinds (both / first / second / no change matches, parse error, failing replacement), enumerated by TLC, %s (thorough: at most 20000 per combination) replayed on real goroutines and validated passage by passage; sequential histories of 4..12 calls and 8..16 free-running goroutines under the race detector; command: sequences of 2..3 files of 6 kinds x argument orders x 3 modes enumerated by TLC, %s, each run twice and compared file by file with the solo run; distinct = distinct schedules" % ("a seeded sample of" if quick else "all", "a seeded sample of 150" if quick else "2500 sampled"))
     return ctx.finish("model_checking", cov, ASSUME)
 
 
